@@ -15,20 +15,53 @@ pub fn run(rep: &mut Report) {
         logger is not the root or the expected delivery multiset is non-empty; distinct = distinct \
         (config, target, level)".to_owned();
     rep.assume("deliveries are compared as multisets keyed by appender name; delivery order is not judged");
-    rep.assume("logger names come from a small component alphabet (a, b, ab, a_b, é, bc), depth <= 6, <= 8 loggers");
+    rep.assume("logger names come from a small component alphabet (a, b, ab, a_b, é, bc), depth <= 7, <= 24 loggers; plus chains of 100 .. 21846 components (names around 255/256 components and 65535/65536 bytes)");
     let n = if rep.tier == "thorough" { 100_000 } else { 4_000 };
     run_cases(rep, "config", n, |rep, rng, _| one_config(rep, rng, 8, 5));
     // a second family: many loggers, deep names
     let n2 = if rep.tier == "thorough" { 10_000 } else { 400 };
     run_cases(rep, "deep", n2, |rep, rng, _| one_config(rep, rng, 24, 7));
+    // a third family: a few loggers hundreds to thousands of components deep
+    run_cases(rep, "very-deep", if rep.tier == "thorough" { 280 } else { 56 }, very_deep);
     rep.require(rep.counter("deliveries_compared") > 1000, "fewer than 1000 deliveries compared");
     rep.require(rep.counter("probes_effective_nonroot") > 100, "too few probes reached a non-root logger");
     rep.require(rep.counter("probes_via_additive_chain") > 20, "too few probes exercised additive inheritance");
 }
 
+/// Loggers hundreds of components deep (around 255/256 and 65535/65536 bytes of name), declared child first.
+fn very_deep(rep: &mut Report, rng: &mut Rng, idx: u64) {
+    let depths = [100usize, 127, 128, 254, 255, 256, 257, 258, 300, 511, 512, 1000, 2000, 3000];
+    let d = depths[(idx as usize) % depths.len()];
+    let comp = if idx % 2 == 0 { "a" } else { "é" };
+    let parent = vec![comp; d].join("::");
+    let child = format!("{}::b", parent);
+    let grand = format!("{}::b::a", parent);
+    let appenders: Vec<String> = (0..4).map(|i| format!("A{}", i)).collect();
+    let mut loggers = vec![
+        LoggerSpec { name: grand.clone(), level: *rng.pick(&FILTERS), additive: rng.chance(2, 3), appenders: vec!["A3".into()] },
+        LoggerSpec { name: child.clone(), level: *rng.pick(&FILTERS), additive: rng.chance(2, 3), appenders: vec!["A2".into()] },
+        LoggerSpec { name: parent.clone(), level: *rng.pick(&FILTERS), additive: rng.chance(2, 3), appenders: vec!["A1".into()] },
+    ];
+    if rng.chance(1, 3) {
+        loggers.remove(1); // implied intermediate
+    }
+    if rng.chance(1, 2) {
+        loggers.reverse();
+    }
+    let spec = ConfSpec { appenders, root_level: *rng.pick(&FILTERS), root_appenders: vec!["A0".into()], loggers };
+    let targets = vec![parent.clone(), child.clone(), grand.clone(), format!("{}::zz", parent), format!("{}::zz", grand),
+        format!("{}::b::zz", parent), vec![comp; d - 1].join("::"), "a".to_owned()];
+    rep.count("configs_with_very_deep_loggers", 1);
+    check_spec(rep, rng, spec, targets);
+}
+
 fn one_config(rep: &mut Report, rng: &mut Rng, max_loggers: usize, max_depth: usize) {
     let spec = gen_spec(rng, max_loggers, max_depth);
     let targets = probe_targets(&spec, rng);
+    check_spec(rep, rng, spec, targets);
+}
+
+fn check_spec(rep: &mut Report, rng: &mut Rng, spec: ConfSpec, targets: Vec<String>) {
     let spec_s = spec.to_json().to_string();
     for perm in 0..3 {
         let sink = new_sink();
